@@ -178,7 +178,7 @@ func genHmtx(t *rapid.T, e *extremes) *hmtxCase {
 
 	// extents
 	if c.mode != "lsb" {
-		emptyPct := rapid.SampledFrom([]int{0, 10, 30, 60, 100}).Draw(t, "emptyPct")
+		emptyPct := rapid.SampledFrom([]int{10, 0, 30, 10, 60, 0, 30, 100}).Draw(t, "emptyPct")
 		boxG := rapid.Custom(func(t *rapid.T) funit.Rect16 {
 			if rapid.IntRange(0, 99).Draw(t, "isEmpty") < emptyPct {
 				return funit.Rect16{}
